@@ -614,7 +614,15 @@ pub fn key_of(sys: Sys, category: &str, an: &Analysis) -> String {
         // the root cause of a panic is its site, whatever race led there
         return format!("C11:{}:{}", sys.name(), category);
     }
-    format!("C11:{}:{}:{}", sys.name(), category, race_of(an))
+    // the hook sites at which the reduced case is pre-empted inside an operation tell apart
+    // different root causes that show through the same racing pair (e.g. a put pre-empted between
+    // its file write and its index update vs a get pre-empted after it read the index)
+    let race = race_of(an);
+    if race.starts_with("race=") && !an.preempt_sites.is_empty() {
+        format!("C11:{}:{}:{}@{}", sys.name(), category, race, an.preempt_sites.join(","))
+    } else {
+        format!("C11:{}:{}:{}", sys.name(), category, race)
+    }
 }
 
 /// Does the race named by `key` (a key of this system and `category`) occur in the run
@@ -626,6 +634,16 @@ pub fn key_matches(key: &str, sys: Sys, category: &str, an: &Analysis) -> bool {
     }
     let prefix = format!("C11:{}:{}:", sys.name(), category);
     let Some(race) = key.strip_prefix(&prefix) else { return false };
+    // optional "@site,site": every listed pre-emption site must occur in the run as well
+    let (race, sites) = match race.split_once('@') {
+        Some((r, s)) => (r, Some(s)),
+        None => (race, None),
+    };
+    if let Some(s) = sites {
+        if !s.split(',').all(|x| an.preempt_sites.iter().any(|y| *y == x)) {
+            return false;
+        }
+    }
     match race {
         "sequential" => an.preemptions == 0,
         "whole-ops" => an.preemptions > 0 && an.midop_preemptions == 0,
